@@ -15,6 +15,7 @@ every node kind / flag / Type subclass reachable from source (vlib/c11_gen.py).
 
 from __future__ import annotations
 
+import json
 import os
 import re
 from typing import Any, Iterator
@@ -218,13 +219,18 @@ def run(ctx: common.Ctx) -> None:
         "projection (attributes not compared live-vs-reload, with reasons): " + "; ".join(f"{k}: {v}" for k, v in sorted(c11_walk.PROJECTION.items())),
         "memo slots excluded in every pairing: " + "; ".join(f"{k}: {v}" for k, v in sorted(c11_walk.CACHES.items())),
         "normalisations: CallableType.definition Decorator ~ its FuncDef (all readers look through); Var.info/FuncDef.info absent in the "
-        "fresh tree but set to the enclosing class by the fixer (nodes.set_info) is accepted in that direction only",
+        "fresh tree but set to the enclosing class by the fixer (nodes.set_info) is accepted in that direction only; "
+        "TypeInfo.special_alias absent in the fresh tree but created by the fixer (update_tuple_type/update_typeddict_type) likewise; "
+        "TypeInfo.metadata and ExtraAttrs.attrs compared as unordered mappings (both codecs sort their keys)",
+        "in every pairing: " + c11_walk.TYPE_POSITIONS,
         "symbol tables compared as sets of names (iteration order of a module/class namespace is not compared live-vs-reload; it is "
         "compared JSON-vs-binary); names skipped by the serializer by documented rule: '__builtins__', no_serialize symbols",
     ]
     n_tasks = 0
     mods_seen = 0
     type_cells: set[str] = set()
+    examples: dict[str, Any] = {}
+    ctx.extra["examples_per_key"] = examples
     built: dict[tuple[str, str], dict[str, Any]] = {}   # (module id, path) -> bytes of its first build, for cross-build determinism
     with common.workdir("C11") as wd:
         env = common.base_env(VERIF_POOL_ROOT=wd)
@@ -290,16 +296,25 @@ def run(ctx: common.Ctx) -> None:
                         if prev["task"] != t["_name"]:
                             ctx.count()
                             ctx.cell("cross-build-byte-comparisons")
-                            for fmt in ("binary", "json"):
-                                a, b = (prev["bytes"] or {}).get(fmt), (rec.get("bytes") or {}).get(fmt)
-                                if a and b and a != b:
-                                    ctx.violation(f"bytes:same-module-two-builds-differ:{fmt}",
-                                                  f"two builds of the same typeshed module serialize to different {fmt} bytes [module {rec['id']}]",
-                                                  {"module": rec["id"], "path": rec["path"], "first": prev, "second":
-                                                   {"bytes": rec.get("bytes"), "task": t["_name"], "build_format": rec.get("own")},
-                                                   "task": strip(t)})
+                            pa, pb = (prev["bytes"] or {}), (rec.get("bytes") or {})
+                            differ = [fmt for fmt in ("binary", "json") if (pa.get(fmt) or {}).get("sha") and (pb.get(fmt) or {}).get("sha")
+                                      and pa[fmt]["sha"] != pb[fmt]["sha"]]
+                            if differ:
+                                na, nb = (pa.get("json") or {}).get("sha_fresh_ids_renumbered"), (pb.get("json") or {}).get("sha_fresh_ids_renumbered")
+                                why = "fresh-typevar-ids" if (na and nb and na == nb) else "other:" + "+".join(differ)
+                                key = f"bytes:same-module-two-builds-differ:{why}"
+                                wit = {"module": rec["id"], "path": rec["path"], "first": prev,
+                                       "second": {"bytes": rec.get("bytes"), "task": t["_name"], "build_format": rec.get("own")},
+                                       "task": strip(t), "formats_differing": differ}
+                                examples.setdefault(key, wit)
+                                ctx.violation(key, "two builds of the same typeshed module serialize to different bytes, so equal interfaces get "
+                                              f"different interface hashes ({why}) [module {rec['id']}]", wit)
                     finds = record_findings(rec)
                     for key, what, detail in finds:
+                        if key not in examples:
+                            examples[key] = {"workload": t["_name"][:100], "module": rec["id"], "what": what,
+                                             "detail": json.loads(json.dumps(detail, default=repr)[:3000] + "") if len(json.dumps(detail, default=repr)) <= 3000
+                                             else json.dumps(detail, default=repr)[:3000]}
                         ctx.violation(key, f"{what} [module {rec['id']}]",
                                       {"task": strip(t), "module": rec["id"], "path": rec.get("path"), "key": key, **detail})
                     if not finds and rec.get("symbols", 0) > 20 and len(ctx.samples) < 6:
